@@ -388,6 +388,10 @@ func MetaDataKVHandler(resHolder *SearchResult, attrGetter AttributeGetter, addi
 					continue
 				}
 				mch, val := convertFilterValue(fs[i].SearchFilter)
+				if mch == object.MatchNotPresent {
+					// attribute is present in every key being iterated, nothing can match
+					return false
+				}
 				var matches bool
 				if IsIntegerSearchOp(mch) {
 					matches = fs[i].AutoMatch || intBytesMatch(primDBVal, mch, fs[i].Raw)
